@@ -19,12 +19,6 @@ from ..cfg import CFG, Node, _may_raise
 from ..flow import Flow
 from ..tables import Atom
 
-OPTIONS = 'mesonbuild/options.py'
-COREDATA = 'mesonbuild/coredata.py'
-MSETUP = 'mesonbuild/msetup.py'
-MCONF = 'mesonbuild/mconf.py'
-IBASE = 'mesonbuild/interpreterbase/interpreterbase.py'
-CMDLINE = 'mesonbuild/cmdline.py'
 
 EXPLANATION = (
     'Decides structural clauses of C08: R1 the decision table of OptionStore.set_from_configure_command (-D sets through '
@@ -55,6 +49,200 @@ TECHNIQUE = ('decision tables by path enumeration over canonical atoms + world e
 # ---------------------------------------------------------------------------
 # small shared helpers
 
+# ---------------------------------------------------------------------------
+# Normal forms applied ONCE to every module this pack reads (in place on the parsed tree, positions kept), so that all rules
+# see the same spelling:
+#   * keyword arguments of calls to repository functions are bound to the callee's parameters and made positional,
+#   * string templates (f-string, '%s' % x, '{}'.format(x)) become the concatenation  a + 'lit' + b,
+#   * a condition bound to a named local just before the `if` that tests it is tested directly.
+
+INDEX_MODULES = (OPTIONS, COREDATA, MSETUP, MCONF, IBASE, CMDLINE) = (
+    'mesonbuild/options.py', 'mesonbuild/coredata.py', 'mesonbuild/msetup.py', 'mesonbuild/mconf.py',
+    'mesonbuild/interpreterbase/interpreterbase.py', 'mesonbuild/cmdline.py')
+
+
+def _template_pieces(e: ast.AST) -> T.Optional[T.List[ast.AST]]:
+    """Pieces of a text template (constants and spliced expressions) or None."""
+    import re as _re
+    if isinstance(e, ast.JoinedStr):
+        out: T.List[ast.AST] = []
+        for v in e.values:
+            if isinstance(v, ast.Constant) and isinstance(v.value, str):
+                out.append(v)
+            elif isinstance(v, ast.FormattedValue) and v.format_spec is None and v.conversion in (-1, 115):
+                out.append(v.value)
+            else:
+                return None
+        return out
+    if isinstance(e, ast.BinOp) and isinstance(e.op, ast.Mod) and isinstance(e.left, ast.Constant) and isinstance(e.left.value, str):
+        fmt = e.left.value
+        args = list(e.right.elts) if isinstance(e.right, ast.Tuple) else [e.right]
+        parts = _re.split(r'(%s)', fmt)
+        if '%' in fmt.replace('%s', '') or parts.count('%s') != len(args) or isinstance(e.right, (ast.Dict, ast.Name)) and len(args) == 1 and not isinstance(e.right, ast.Name):
+            return None
+        out = []
+        it = iter(args)
+        for p_ in parts:
+            out.append(next(it) if p_ == '%s' else ast.Constant(value=p_))
+        return out
+    if isinstance(e, ast.Call) and isinstance(e.func, ast.Attribute) and e.func.attr == 'format' and isinstance(e.func.value, ast.Constant) \
+            and isinstance(e.func.value.value, str) and not e.keywords and not any(isinstance(a, ast.Starred) for a in e.args):
+        fmt = e.func.value.value
+        parts = _re.split(r'(\{\})', fmt)
+        if '{' in fmt.replace('{}', '') or '}' in fmt.replace('{}', '') or parts.count('{}') != len(e.args):
+            return None
+        out = []
+        it = iter(e.args)
+        for p_ in parts:
+            out.append(next(it) if p_ == '{}' else ast.Constant(value=p_))
+        return out
+    return None
+
+
+class _Normalise(ast.NodeTransformer):
+    def __init__(self, repo: T.Any, mod: Module):
+        self.repo = repo
+        self.mod = mod
+        self._index: T.Optional[T.Dict[str, T.List[T.Tuple[ast.AST, bool]]]] = None
+
+    # -- string templates -------------------------------------------------------------------
+    def _concat(self, node: ast.AST) -> ast.AST:
+        pieces = _template_pieces(node)
+        if pieces is None:
+            return node
+        pieces = [p_ for p_ in pieces if not (isinstance(p_, ast.Constant) and p_.value == '')]
+        if len(pieces) < 2 or not any(isinstance(p_, ast.Constant) for p_ in pieces):
+            return node
+        acc = pieces[0]
+        for p_ in pieces[1:]:
+            acc = ast.copy_location(ast.BinOp(left=acc, op=ast.Add(), right=p_), node)
+        return ast.fix_missing_locations(acc)
+
+    def visit_JoinedStr(self, node: ast.JoinedStr) -> ast.AST:
+        self.generic_visit(node)
+        return self._concat(node)
+
+    def visit_BinOp(self, node: ast.BinOp) -> ast.AST:
+        self.generic_visit(node)
+        return self._concat(node) if isinstance(node.op, ast.Mod) else node
+
+    # -- keyword -> positional ----------------------------------------------------------------
+    def _method_index(self) -> T.Dict[str, T.List[T.Tuple[ast.AST, bool]]]:
+        if self._index is None:
+            idx: T.Dict[str, T.List[T.Tuple[ast.AST, bool]]] = {}
+            for rel in INDEX_MODULES:
+                if not self.repo.exists(rel):
+                    continue
+                m = self.repo.module(rel)
+                for q, f in m.funcs().items():
+                    if '#' in q:
+                        continue
+                    idx.setdefault(q.rsplit('.', 1)[-1], []).append((f, '.' in q and q.rsplit('.', 1)[0] in m.classes()))
+            self._index = idx
+        return self._index
+
+    def _candidates(self, call: ast.Call) -> T.List[T.List[str]]:
+        """Positional parameter lists (receiver dropped) of the functions the call may refer to."""
+        f = call.func
+        found: T.List[T.Tuple[ast.AST, bool]] = []
+        if isinstance(f, ast.Name):
+            if self.mod.has_func(f.id):
+                found = [(self.mod.func(f.id), False)]
+            else:
+                origin = self.mod.imports().get(f.id)
+                if origin and '.' in origin:
+                    m2 = self.repo.module_by_dotted(origin.rsplit('.', 1)[0])
+                    if m2 is not None and m2.has_func(origin.rsplit('.', 1)[1]):
+                        found = [(m2.func(origin.rsplit('.', 1)[1]), False)]
+        elif isinstance(f, ast.Attribute):
+            base = attr_chain(f.value)
+            if base is not None and '.' not in base and base in self.mod.imports():
+                m2 = self.repo.module_by_dotted(self.mod.imports()[base])
+                if m2 is not None and m2.has_func(f.attr):
+                    found = [(m2.func(f.attr), False)]
+            if not found and not (base is not None and '.' not in base and base in self.mod.imports()):
+                found = [c for c in self._method_index().get(f.attr, []) if c[1]]
+        out = []
+        for fn, is_method in found:
+            a = fn.args  # type: ignore[attr-defined]
+            if a.vararg is not None:
+                continue
+            ps = [x.arg for x in a.posonlyargs + a.args]
+            if is_method and ps and ps[0] in ('self', 'cls') and 'staticmethod' not in [attr_chain(d) for d in fn.decorator_list]:  # type: ignore[attr-defined]
+                ps = ps[1:]
+            out.append(ps)
+        return out
+
+    def visit_Call(self, node: ast.Call) -> ast.AST:
+        self.generic_visit(node)
+        t = self._concat(node)
+        if t is not node:
+            return t
+        if not node.keywords or any(k.arg is None for k in node.keywords) or any(isinstance(a, ast.Starred) for a in node.args):
+            return node
+        results = []
+        for ps in self._candidates(node):
+            kws = {k.arg: k.value for k in node.keywords}
+            if len(node.args) > len(ps) or any(k not in ps for k in kws) or any(ps.index(k) < len(node.args) for k in kws):
+                continue
+            top = max(ps.index(k) for k in kws)
+            if any(ps[i] not in kws for i in range(len(node.args), top + 1)):
+                continue        # a defaulted parameter in between is not given: cannot be written positionally
+            results.append(list(node.args) + [kws[ps[i]] for i in range(len(node.args), top + 1)])
+        if results and all([norm(x) for x in r] == [norm(x) for x in results[0]] for r in results):
+            node.args = results[0]
+            node.keywords = []
+        return node
+
+
+def _is_condition(e: ast.AST) -> bool:
+    if isinstance(e, ast.BoolOp):
+        return True
+    if isinstance(e, ast.UnaryOp) and isinstance(e.op, ast.Not):
+        return True
+    return isinstance(e, ast.Compare)
+
+
+def _test_named_conditions(block: T.List[ast.stmt]) -> None:
+    """`c = <condition>; ...plain local bindings...; if [not] c:`  ->  the `if` tests the condition itself (the binding stays).
+    Only when c has no other use or binding in the block, so evaluation order is unchanged."""
+    for i, st in enumerate(block):
+        for field in ('body', 'orelse', 'finalbody'):
+            sub = getattr(st, field, None)
+            if isinstance(sub, list) and sub and isinstance(sub[0], ast.stmt):
+                _test_named_conditions(sub)
+        for h in getattr(st, 'handlers', []):
+            _test_named_conditions(h.body)
+        if not (isinstance(st, ast.Assign) and len(st.targets) == 1 and isinstance(st.targets[0], ast.Name) and _is_condition(st.value)):
+            continue
+        name = st.targets[0].id
+        for j in range(i + 1, len(block)):
+            nxt = block[j]
+            if isinstance(nxt, ast.If) and name in names_in(nxt.test):
+                uses = sum(1 for b in block for n in ast.walk(b) if isinstance(n, ast.Name) and n.id == name)
+                if uses == 2 and sum(1 for n in ast.walk(nxt.test) if isinstance(n, ast.Name) and n.id == name) == 1:
+                    nxt.test = _subst(nxt.test, {name: st.value})
+                    ast.fix_missing_locations(ast.copy_location(nxt.test, nxt))
+                break
+            plain = isinstance(nxt, (ast.Assign, ast.AnnAssign)) and all(isinstance(t, ast.Name) and t.id != name for t in
+                                                                         (nxt.targets if isinstance(nxt, ast.Assign) else [nxt.target])) \
+                and getattr(nxt, 'value', None) is not None and _transparent(nxt.value) and name not in names_in(nxt)  # type: ignore[arg-type]
+            if not plain:
+                break
+
+
+def _m(ctx: RuleCtx, rel: str) -> Module:
+    """The module in the pack's normal form (see above)."""
+    mod = ctx.repo.module(rel)
+    if not getattr(mod, '_c08_normal', False):
+        mod._c08_normal = True  # type: ignore[attr-defined]
+        _Normalise(ctx.repo, mod).visit(mod.tree)
+        for f in mod.funcs().values():
+            _test_named_conditions(f.body)
+        mod._parents = None
+    return mod
+
+
 class _Rename(ast.NodeTransformer):
     def __init__(self, m: T.Dict[str, str]):
         self.m = m
@@ -71,8 +259,21 @@ class _Rename(ast.NodeTransformer):
         return n
 
 
-def _renamed(stmts: T.Sequence[ast.AST], m: T.Dict[str, str]) -> T.List[T.Any]:
-    return [_Rename(m).visit(copy.deepcopy(s)) for s in stmts]
+def _renamed(stmts: T.Sequence[ast.AST], m: T.Dict[str, str], outer: T.Optional[ast.AST] = None) -> T.List[T.Any]:
+    """Deep copy of a block with canonical names; with `outer` (the enclosing function) single-definition locals bound outside
+    the block to call-free expressions (`stored = config['options']`) are substituted first (unique reaching definition)."""
+    out = [copy.deepcopy(s) for s in stmts]
+    if outer is not None:
+        inside = {id(n) for s in stmts for n in ast.walk(s)}
+        stored = {n.id for s in stmts for n in ast.walk(s) if isinstance(n, ast.Name) and isinstance(n.ctx, (ast.Store, ast.Del))}
+        env = {}
+        for k, v in _single_defs(outer).items():
+            if id(v) not in inside and k not in stored and k not in m and _transparent(v) and not isinstance(v, (ast.List, ast.Dict, ast.Set, ast.ListComp, ast.Constant)):
+                env[k] = v
+        for _ in range(2):
+            env = {k: _subst(v, {a: b for a, b in env.items() if a != k}) for k, v in env.items()}
+        out = [_Sub(env).visit(s) for s in out]
+    return [_Rename(m).visit(s) for s in out]
 
 
 class _Sub(ast.NodeTransformer):
@@ -542,7 +743,7 @@ def _r1_judge(row: tables.Row, want: str) -> T.Optional[str]:
 
 
 def r1(ctx: RuleCtx) -> None:
-    mod = ctx.repo.module(OPTIONS)
+    mod = _m(ctx, OPTIONS)
     qn = 'OptionStore.set_from_configure_command'
     fn = mod.func(qn)
     params = _pos_params(fn)
@@ -560,7 +761,7 @@ def r1(ctx: RuleCtx) -> None:
     ctx.require(not any(isinstance(n, ast.Return) for st in loops[0].body for n in walk_no_nested(st)) and rets[-1] in fn.body,
                 f'{qn}: returns the accumulated flag `{acc}` after the loop', mod, qn, 'return inside key loop',
                 'a return inside the key loop skips the remaining -D/-U arguments')
-    body = _renamed(loops[0].body, {il[0]: 'KEY', il[1]: 'VAL', acc: 'DIRTY'})
+    body = _renamed(loops[0].body, {il[0]: 'KEY', il[1]: 'VAL', acc: 'DIRTY'}, fn)
     tab = _ptable(body, _r1_eff, keep={'DIRTY'}, name=qn + ':loop')
     sem = {Atom('is', ('VAL', 'None')): 'unset', Atom('in', ('KEY', 'self.augments')): 'augment',
            Atom('in', ('KEY', 'self.options')): 'known'}
@@ -575,22 +776,27 @@ def r1(ctx: RuleCtx) -> None:
     ctx.floor(f'{qn}: rows', len(tab.rows), 4)
 
     # CoreData forwards the parsed -D/-U dictionary and returns the flag
-    cmod = ctx.repo.module(COREDATA)
+    cmod = _m(ctx, COREDATA)
     cqn = 'CoreData.set_from_configure_command'
     cfn = cmod.func(cqn)
     ctab = tables.extract(cfn, name=cqn)
     want = ('return', 'self.optstore.set_from_configure_command(ARG1.cmd_line_options)')
     for r in ctab.rows:
-        ctx.require(r.outcome == want and not r.conds, f'{cqn}: returns optstore.set_from_configure_command(options.cmd_line_options)', cmod, cqn,
-                    ' '.join(str(x) for x in r.outcome), f'row `{r!r}` does not return the store result for options.cmd_line_options '
-                    '(mconf.run_impl saves only when the result is true)', _row_node(r, cfn))
+        if r.outcome == want and not r.conds:
+            ctx.ok(f'{cqn}: returns optstore.set_from_configure_command(options.cmd_line_options)')
+        elif r.outcome[0] in ('return', 'fall') and 'set_from_configure_command' not in ' '.join(str(x) for x in r.outcome):
+            # the row ends with a value that is not derived from the store call: the dirty flag is lost
+            ctx.violation(cmod, cqn, ' '.join(str(x) for x in r.outcome), f'row `{r!r}` ends with `{" ".join(str(x) for x in r.outcome)}`: the result of the '
+                          'store call is not returned (mconf.run_impl saves only when the result is true)', _row_node(r, cfn))
+        else:
+            raise Undecided(f'{cqn}: unknown forwarding form `{r!r}`')
 
 
 # ---------------------------------------------------------------------------
 # C08.R1b  cmd_line.txt records -D and erases -U with the same discriminator as the option store
 
 def r1b(ctx: RuleCtx) -> None:
-    mod = ctx.repo.module(CMDLINE)
+    mod = _m(ctx, CMDLINE)
     qn = 'update_cmd_line_file'
     fn = mod.func(qn)
     params = _pos_params(fn)
@@ -605,7 +811,7 @@ def r1b(ctx: RuleCtx) -> None:
             and isinstance(st.value, ast.Call) and call_method(st.value) == 'CmdLineFileParser']
     if len(cfgs) != 1:
         raise Undecided(f'{qn}: the parsed cmd_line.txt is not held in one variable')
-    body = _renamed(loop.body, {k: 'KEY', v: 'VAL', cfgs[0]: 'CFG'})
+    body = _renamed(loop.body, {k: 'KEY', v: 'VAL', cfgs[0]: 'CFG'}, fn)
     tab = _ptable(body, _r1_eff, name=qn + ':loop')
     rec = "CFG['options']"
     sem = {Atom('is', ('VAL', 'None')): 'unset', Atom('truth', ('VAL',)): 'truthy',
@@ -860,7 +1066,7 @@ def _r2_judge(pm: T.Dict[ast.AST, T.Tuple[ast.AST, str]], rp: _R2Path, want: str
 
 
 def r2a(ctx: RuleCtx) -> None:
-    mod = ctx.repo.module(OPTIONS)
+    mod = _m(ctx, OPTIONS)
     qn = 'OptionStore.update_project_options'
     fn = _inlined(mod, qn, ('add_project_option', 'set_option', 'remove', 'get_value_object', 'set_value', 'is_project_option'))
     params = _pos_params(fn)
@@ -870,7 +1076,7 @@ def r2a(ctx: RuleCtx) -> None:
     if len(loops) != 1:
         raise Undecided(f'{qn}: expected one loop over {params[0]}.items()')
     k, v, _ = _items_loop(loops[0], params[0])  # type: ignore[misc]
-    body = _renamed(loops[0].body, {k: 'KEY', v: 'NEW', params[0]: 'ARG1', params[1]: 'ARG2'})
+    body = _renamed(loops[0].body, {k: 'KEY', v: 'NEW', params[0]: 'ARG1', params[1]: 'ARG2'}, fn)
     pm = _parent_map(ast.Module(body=body, type_ignores=[]))
     handlers: T.Dict[int, ast.ExceptHandler] = {}
     lowered = _lower_trys(qn, body, handlers)
@@ -933,7 +1139,7 @@ def _resolve_local(fn: ast.AST, e: ast.AST) -> ast.AST:
 
 
 def r2b(ctx: RuleCtx) -> None:
-    mod = ctx.repo.module(OPTIONS)
+    mod = _m(ctx, OPTIONS)
     qn = 'OptionStore.update_project_options'
     fn = _inlined(mod, qn, ('add_project_option', 'set_option', 'remove', 'get_value_object', 'set_value', 'is_project_option'))
     params = _pos_params(fn)
@@ -956,6 +1162,18 @@ def r2b(ctx: RuleCtx) -> None:
                 'normal path around the removal loop', 'update_project_options can return normally without running the loop that removes options the option '
                 'file no longer declares (e.g. an early return / a guard on the declared mapping): with such an option file the stale options stay', loop)
     it0 = _resolve_local(fn, loop.iter)
+    loop_body: T.List[ast.stmt] = loop.body
+    if isinstance(it0, (ast.ListComp, ast.SetComp, ast.GeneratorExp)) or (isinstance(it0, ast.Call) and call_name(it0) in ('list', 'tuple', 'set') and
+                                                                           len(it0.args) == 1 and isinstance(it0.args[0], ast.GeneratorExp)):
+        comp = it0 if not isinstance(it0, ast.Call) else it0.args[0]
+        g = comp.generators[0]  # type: ignore[attr-defined]
+        if len(comp.generators) == 1 and not g.is_async and isinstance(g.target, ast.Name) and norm(comp.elt) == g.target.id:  # type: ignore[attr-defined]
+            # `for k in [k for k in X if c]: body`  ==  `for k in X: if c: body`
+            if g.ifs:
+                test = g.ifs[0] if len(g.ifs) == 1 else ast.BoolOp(op=ast.And(), values=list(g.ifs))
+                test = _Rename({g.target.id: loop.target.id}).visit(copy.deepcopy(test))
+                loop_body = [ast.fix_missing_locations(ast.copy_location(ast.If(test=test, body=loop.body, orelse=[]), loop))]
+            it0 = _resolve_local(fn, g.iter)
     it = _Rename({params[0]: 'ARG1', params[1]: 'ARG2'}).visit(copy.deepcopy(it0))
     if isinstance(it, (ast.IfExp, ast.BoolOp)) and 'ARG1' in names_in(it.test if isinstance(it, ast.IfExp) else it.values[0]):
         ctx.violation(mod, qn, norm(it), f'the removal candidates `{norm(it)}` depend on a test of the declared mapping itself; the reference is the stored '
@@ -970,7 +1188,7 @@ def r2b(ctx: RuleCtx) -> None:
             ctx.violation(mod, qn, norm(it), f'candidate keys are `{norm(it)}`; the reference is the stored keys minus the declared keys', loop)
             return
         raise Undecided(f'{qn}: removal loop iterates over `{norm(it)}`')
-    body = _renamed(loop.body, {loop.target.id: 'KEY', params[0]: 'ARG1', params[1]: 'ARG2'})
+    body = _renamed(loop_body, {loop.target.id: 'KEY', params[0]: 'ARG1', params[1]: 'ARG2'})
     tab = _ptable(body, _r1_eff, pure={'is_project_option'}, name=qn + ':removal')
     sem = {Atom('truth', ('self.is_project_option(KEY)',)): 'project', Atom('in', ('KEY', 'self.project_options')): 'project',
            Atom('cmp', ('eq', 'KEY.subproject', 'ARG2')): 'own', Atom('cmp', ('eq', 'ARG2', 'KEY.subproject')): 'own',
@@ -1038,7 +1256,7 @@ def _cmp_terms(qn: str, e: ast.AST) -> T.List[ast.Compare]:
 
 
 def r2c(ctx: RuleCtx) -> None:
-    mod = ctx.repo.module(OPTIONS)
+    mod = _m(ctx, OPTIONS)
     qn = 'choices_are_different'
     fn = mod.func(qn)
     if len(_pos_params(fn)) != 2:
@@ -1158,6 +1376,9 @@ def _restore_problems(fn: ast.AST, h: ast.ExceptHandler, cdf: str) -> T.Tuple[T.
                 else:
                     want = [['CALL os.unlink(CDF)'], ['CALL os.remove(CDF)']]
                 what = 'no coredata written' if none else ('previous coredata saved' if exists else 'no previous coredata')
+                unknown = [e for e in r.effects if e not in osx and not e.startswith(('CALL mintro.', 'CALL mlog.', 'CALL print('))]
+                if osx not in want and unknown:
+                    raise Undecided(f'restore handler: `{unknown[0][5:]}` may do the restoring; not understood')
                 if osx not in want:
                     probs.append((f'{what}: {"; ".join(osx) or "nothing"}', f'with {what} the handler does [{"; ".join(osx) or "nothing"}]; '
                                   f'the reference is {want[0] or "nothing"}', _row_node(r, h)))
@@ -1303,9 +1524,9 @@ def r3a(ctx: RuleCtx) -> None:
     ex = _r3_analyse(ast.parse(_R3_EXAMPLE).body[0], 'example')
     if not any('update_cmd_line_file' in c for c, _, _ in ex.bad):
         raise AnalysisError('C08.R3a: built-in positive example (writer after the try) was not flagged')
-    mod = ctx.repo.module(MSETUP)
+    mod = _m(ctx, MSETUP)
     qn = 'MesonApp._generate'
-    fn = mod.func(qn)
+    fn = _inlined(mod, qn)
     res = _r3_analyse(fn, qn)
     for c, m, n in res.bad:
         ctx.violation(mod, qn, c, m, n)
@@ -1313,7 +1534,7 @@ def r3a(ctx: RuleCtx) -> None:
         ctx.ok(o)
     ctx.floor(f'{qn}: persistent writer calls', res.writers, 4)
     ctx.floor(f'{qn}: may-raise statements after the dump', res.after, 10)
-    cmod = ctx.repo.module(COREDATA)
+    cmod = _m(ctx, COREDATA)
     want = _prev_suffix_of_save(cmod)
     if res.suffix is not None:
         ctx.require(res.suffix == want, f'backup suffix {want!r} of coredata.save equals the one the handler restores from', mod, qn,
@@ -1323,7 +1544,7 @@ def r3a(ctx: RuleCtx) -> None:
 
 def r3d(ctx: RuleCtx) -> None:
     """Every save that publishes a new coredata.dat over an existing one first refreshes the backup the rollback restores."""
-    mod = ctx.repo.module(COREDATA)
+    mod = _m(ctx, COREDATA)
     qn = 'save'
     fn = _inlined(mod, qn)
     rets = [n for n in walk_no_nested(fn) if isinstance(n, ast.Return)]
@@ -1337,7 +1558,13 @@ def r3d(ctx: RuleCtx) -> None:
         suffix = _prev_suffix_of_save(mod)
         backup = {f'CALL shutil.{f}(FNAME, FNAME + {suffix!r})' for f in ('copyfile', 'copy', 'copy2')}
     except Undecided:
-        # no copy of <coredata.dat> to <coredata.dat> + constant anywhere in save (helpers inlined): no path refreshes a backup
+        # no copy of <coredata.dat> to <coredata.dat> + constant was recognised.  Only when nothing in save (helpers inlined) takes the
+        # file as a source at all is "no path refreshes a backup" established; any other mention is an idiom not understood.
+        for r in tab.rows:
+            for e in r.effects:
+                c = ast.parse(e[5:], mode='eval').body
+                if isinstance(c, ast.Call) and c.args and norm(c.args[0]) == 'FNAME':
+                    raise Undecided(f'coredata.save: `{e[5:]}` may be the backup copy, destination not understood')
         suffix, backup = '.<backup>', set()
     npub = 0
     for r in tab.rows:
@@ -1384,9 +1611,9 @@ def r3c(ctx: RuleCtx) -> None:
     ex = _r3_analyse(ast.parse(_R3C_EXAMPLE).body[0], 'example')
     if len(ex.exposed) != 1:
         raise AnalysisError('C08.R3c: built-in positive example (postconf scripts after the cmd_line.txt update) was not flagged')
-    mod = ctx.repo.module(MSETUP)
+    mod = _m(ctx, MSETUP)
     qn = 'MesonApp._generate'
-    fn = mod.func(qn)
+    fn = _inlined(mod, qn)
     res = _r3_analyse(fn, qn)
     ctx.floor(f'{qn}: guarded writers of cmd_line.txt', res.cmd_writers, 2)
     by_handler: T.Dict[ast.ExceptHandler, T.List[T.Tuple[ast.Call, ast.AST]]] = {}
@@ -1457,9 +1684,12 @@ def _r3b_analyse(fn: ast.AST, qn: str) -> _R3bResult:
             continue
         if any(fl.origins(t) & src for t in tests):
             res.ok.append(f'{qn}: the result of set_from_configure_command flows into the condition guarding `{short(v.expr(), 40)}`')
+        elif all(isinstance(s_.ast, ast.Expr) and isinstance(s_.ast.value, ast.Call) and call_method(s_.ast.value) == 'set_from_configure_command' for s_ in S):
+            # positive evidence: the call is a bare statement, its result is discarded
+            res.bad.append(('save condition: ' + ' and '.join(norm(t) for t in tests), 'the result of set_from_configure_command is discarded and cannot reach the '
+                            f'condition guarding `{short(v.expr(), 40)}`: changed options are not persisted', v.ast))  # type: ignore[arg-type]
         else:
-            res.bad.append(('save condition: ' + ' and '.join(norm(t) for t in tests), 'the result of set_from_configure_command does not reach the condition '
-                            f'guarding `{short(v.expr(), 40)}`: changed options are not persisted', v.ast))  # type: ignore[arg-type]
+            raise Undecided(f'{qn}: cannot follow the result of set_from_configure_command to the condition guarding `{short(v.expr(), 40)}`')
     return res
 
 
@@ -1481,7 +1711,7 @@ def r3b(ctx: RuleCtx) -> None:
     ex = _r3b_analyse(ast.parse(_R3B_EXAMPLE).body[0], 'example')
     if not any('after set_from_configure_command raised' in m for _, m, _ in ex.bad):
         raise AnalysisError('C08.R3b: built-in positive example (swallowing handler) was not flagged')
-    mod = ctx.repo.module(MCONF)
+    mod = _m(ctx, MCONF)
     qn = 'run_impl'
     fn = mod.func(qn)
     res = _r3b_analyse(fn, qn)
@@ -1559,7 +1789,12 @@ def _r4_analyse(fn: ast.AST, qn: str) -> _R4Result:
     has_cmd = any(isinstance(x, ast.Call) and call_method(x) == 'get_cmd_line_file' for x in ast.walk(src_iter))
     has_ini = any(isinstance(x, ast.Call) and call_method(x) == 'glob' and any(isinstance(k, ast.Constant) and k.value == '*.ini' for k in ast.walk(x))
                   for x in ast.walk(src_iter))
+    opaque = [c for c in ast.walk(src_iter) if isinstance(c, ast.Call) and call_method(c) not in ('get_cmd_line_file', 'glob', 'join', 'list', 'sorted', 'str')]
+    opaque += [n for n in ast.walk(src_iter) if isinstance(n, ast.Name) and n.id not in ('self', 'cmdline', 'glob', 'os', 'environment', 'list', 'sorted', 'str')
+               and n.id not in params]
     for okk, what in ((has_cmd, 'cmd_line.txt (cmdline.get_cmd_line_file)'), (has_ini, 'the machine files (glob *.ini)')):
+        if not okk and opaque:
+            raise Undecided(f'{qn}: the backup set `{short(src_iter, 90)}` is built from `{short(opaque[0], 40)}`, which is not understood')
         if okk:
             res.ok.append(f'{qn}: the backup loop covers {what}')
         else:
@@ -1651,9 +1886,9 @@ def r4(ctx: RuleCtx) -> None:
     ex = _r4_analyse(ast.parse(_R4_EXAMPLE).body[0], 'example')
     if not (any('before read_cmd_line_file' in m for _, m, _ in ex.bad)):
         raise AnalysisError('C08.R4: built-in positive example (deletion before read, no finally) was not flagged')
-    mod = ctx.repo.module(MSETUP)
+    mod = _m(ctx, MSETUP)
     qn = 'MesonApp.__init__'
-    fn = mod.func(qn)
+    fn = _inlined(mod, qn, ('add_ignore_files',))
     res = _r4_analyse(fn, qn)
     for what, mn in (('deletions', 2), ('read_cmd_line_file', 1), ('backup copies', 1), ('restore loops', 1)):
         ctx.floor(f'{qn}: {what}', res.counts.get(what, 0), mn)
@@ -1769,7 +2004,7 @@ def _r5_key_checks(rp: _R5Path, subkey: str) -> T.List[T.Tuple[str, str, ast.AST
 
 
 def _conf_loop(ctx: RuleCtx) -> T.Tuple[Module, str, ast.AST, T.List[_R5Path], T.List[ast.stmt]]:
-    mod = ctx.repo.module(MCONF)
+    mod = _m(ctx, MCONF)
     qn = 'Conf.__init__'
     fn = _inlined(mod, qn)
     loops = [n for n in walk_no_nested(fn) if isinstance(n, ast.For) and _items_loop(n) is not None
@@ -1777,7 +2012,7 @@ def _conf_loop(ctx: RuleCtx) -> T.Tuple[Module, str, ast.AST, T.List[_R5Path], T
     if len(loops) != 1:
         raise Undecided(f'{qn}: expected one loop over options_files.items(), found {len(loops)}')
     k, v, _ = _items_loop(loops[0])  # type: ignore[misc]
-    body = _renamed(loops[0].body, {k: 'SUB', v: 'ITEM'})
+    body = _renamed(loops[0].body, {k: 'SUB', v: 'ITEM'}, fn)
     ps = paths.enumerate_paths(body, pure={'exists', 'isfile', 'join'})
     return mod, qn, fn, [_r5_walk(body, p) for p in ps], body
 
@@ -1875,7 +2110,7 @@ def r5b(ctx: RuleCtx) -> None:
 
 
 def r5c(ctx: RuleCtx) -> None:
-    mod = ctx.repo.module(IBASE)
+    mod = _m(ctx, IBASE)
     qn = 'InterpreterBase._load_option_file'
     fn = _inlined(mod, qn)
     ps = paths.enumerate_paths(fn.body, pure={'exists', 'samefile', 'join'})
